@@ -70,6 +70,16 @@ func (h *handler) HandleEventBatch(_ context.Context, _ logr.Logger, batch event
 	h.mu.Unlock()
 }
 
+// doRelease lets the blocked handler return; false when no handler takes the token in time.
+func (h *handler) doRelease() bool {
+	select {
+	case h.release <- struct{}{}:
+		return true
+	case <-time.After(wait):
+		return false
+	}
+}
+
 func natList(l []int) string {
 	if len(l) == 0 {
 		return "-"
@@ -92,7 +102,7 @@ func natLists(l [][]int) string {
 	return strings.Join(s, "|")
 }
 
-const wait = 3 * time.Second
+const wait = 400 * time.Millisecond
 
 type result struct {
 	model, obs, judge string
@@ -171,7 +181,10 @@ func runSchedule(r *rng.R, sync bool, maxOps int) result {
 				continue
 			}
 			n0 := runtime.NumGoroutine()
-			h.release <- struct{}{}
+			if !h.doRelease() {
+				res.inconclusive = "no handler to release"
+				return res
+			}
 			ops = append(ops, "h")
 			if sync {
 				if pending > 0 {
@@ -226,7 +239,10 @@ func runSchedule(r *rng.R, sync bool, maxOps int) result {
 				case <-time.After(3 * time.Millisecond):
 				}
 				if !early {
-					h.release <- struct{}{}
+					if !h.doRelease() {
+						res.inconclusive = "no handler to release"
+						return res
+					}
 					ops = append(ops, "h", "d")
 				}
 			}
@@ -239,7 +255,10 @@ func runSchedule(r *rng.R, sync bool, maxOps int) result {
 		for time.Now().Before(deadline) {
 			if inflight {
 				n0 := runtime.NumGoroutine()
-				h.release <- struct{}{}
+				if !h.doRelease() {
+					res.inconclusive = "no handler to release"
+					return res
+				}
 				ops = append(ops, "h", "a")
 				if pending > 0 {
 					if !waitEntered() {
@@ -317,11 +336,16 @@ func Run(args []string) int {
 	r := rng.New(*seed)
 	w := bufio.NewWriter(os.Stdout)
 	defer w.Flush()
-	for i := 0; i < *n; i++ {
+	anomalies := 0
+	for i := 0; i < *n && anomalies < 12; i++ {
 		res := runSchedule(r.Fork(), !*racy, *maxOps)
 		if res.inconclusive != "" && res.judge == "" {
+			anomalies++
 			fmt.Fprintf(w, "X %s\n", res.inconclusive)
 			continue
+		}
+		if res.model == "" {
+			anomalies++
 		}
 		if *racy {
 			fmt.Fprintf(w, "J %s\n", res.judge)
